@@ -405,9 +405,11 @@ func (c *HCfg) Verify() error {
 
 type HCfg struct {
 	Reject bool
-	MK     map[KS]int             // struct keys containing pointers,
-	MI     map[interface{}]string // interface keys holding pointers / structs with pointers,
-	MA     map[[1]*int]int        // array keys of pointers: the copier copies keys like values
+	MMap   map[string]map[string]int // map-valued map: one inner map may sit under two keys
+	MSub   map[string]HSub           // structs held by value whose map / slice / pointer fields are shared between entries
+	MK     map[KS]int                // struct keys containing pointers,
+	MI     map[interface{}]string    // interface keys holding pointers / structs with pointers,
+	MA     map[[1]*int]int           // array keys of pointers: the copier copies keys like values
 	T      TURef
 	PT     *TURef
 	Name   string
@@ -467,6 +469,25 @@ func fillKeyMaps(r *coqfmt.Rng, v reflect.Value, pool *[]*int, base int) {
 			return (*pool)[r.Intn(len(*pool))]
 		}
 		return fresh(j)
+	}
+	if f := v.FieldByName("MMap"); f.IsValid() {
+		f.Set(reflect.Zero(f.Type()))
+		if r.Chance(2, 3) {
+			in1 := map[string]int{"x": base}
+			in2 := map[string]int{"y": base + 1}
+			m := map[string]map[string]int{"a": in1, "b": in2}
+			if r.Chance(2, 3) {
+				m["c"] = in1 // the same inner map under a second key
+			}
+			f.Set(reflect.ValueOf(m))
+		}
+	}
+	if f := v.FieldByName("MSub"); f.IsValid() {
+		f.Set(reflect.Zero(f.Type()))
+		if r.Chance(1, 2) {
+			sh := map[string]int{"s": base}
+			f.Set(reflect.ValueOf(map[string]HSub{"p": {M: sh, N: 1}, "q": {M: sh, N: 2, P: pick(30)}}))
+		}
 	}
 	if f := v.FieldByName("MK"); f.IsValid() {
 		f.Set(reflect.Zero(f.Type()))
